@@ -116,6 +116,11 @@ Steps(o, c, e, blk) ==
       \cup (IF "remove_debug" \in o /\ blk[i] = <<"dbg_elif">> THEN {ReplaceAt(blk, i, <<"elif_if">>)} ELSE {})
       \* `if __debug__: A` / `elif __debug__ is True: B` / `else: C` : -O runs C
       \cup (IF "remove_debug" \in o /\ blk[i] = <<"dbg_chain">> THEN {ReplaceAt(blk, i, <<"nodbg">>)} ELSE {})
+      \* ... and each removable test may be removed on its own: the inner one (the `elif`) leaves  if __debug__: A / else: C  (dbg_else), or, having no
+      \* else branch, an emptied else suite that holds the placeholder:  if __debug__: A / else: 0  (dbg_else0), whose -O meaning is nothing
+      \cup (IF "remove_debug" \in o /\ blk[i] = <<"dbg_chain">> THEN {ReplaceAt(blk, i, <<"dbg_else">>)} ELSE {})
+      \cup (IF "remove_debug" \in o /\ blk[i] = <<"dbg_chain_noelse">> THEN {ReplaceAt(blk, i, <<"dbg_else0">>)} ELSE {})
+      \cup (IF "remove_debug" \in o /\ blk[i] = <<"dbg_else0">> THEN {RemoveAt(blk, i)} ELSE {})
       ) : i \in DOMAIN blk }
 
 \* the non-empty rule: an emptied suite holds a single `0`; only a module body may become empty
